@@ -449,8 +449,8 @@ class H:
         self.emit("match", expect, fslot, cslot)
         return True
 
-    def line(self):
-        return to_sexp((Sym("ffi-history"),) + tuple(self.calls))
+    def line(self, head="ffi-history"):
+        return to_sexp((Sym(head),) + tuple(self.calls))
 
 
 # ---------------------------------------------------------------- scenarios
@@ -653,6 +653,15 @@ def gen_panic(rng):
     return h
 
 
+def gen_nohook(rng):
+    """a panic history in a process in which the panic catcher's hook has not been installed (the harness runs it
+    in a child process); in half of them the history installs it itself at a random point"""
+    h = gen_panic(rng)
+    if rng.random() < 0.5:
+        h.calls.insert(rng.randrange(len(h.calls) + 1), (Sym("set-hook"), OK))
+    return h.line("ffi-history-nohook")
+
+
 def gen_replace(rng):
     """sequences about replacement and clearing: failures of different functions in a row, successes and
     get_last_error in between, clear, then failures again"""
@@ -743,6 +752,8 @@ def gen(rng, tier):
         out.append(gen_pipeline(rng, rich=True).line())
     for _ in range(200 * scale):
         out.append(gen_panic(rng).line())
+    for _ in range(60 * scale):
+        out.append(gen_nohook(rng))
     for _ in range(500 * scale):
         out.append(gen_two(rng)[0])
     for _ in range(800 * scale):
@@ -760,7 +771,7 @@ def _threads(line, out):
         o = vp.parse_sexp(out)
     except Exception:
         return None
-    if c[0] == "ffi-history" and o and o[0] == "obs":
+    if c[0] in ("ffi-history", "ffi-history-nohook") and o and o[0] == "obs":
         return [(c[1:], o[1:])]
     if c[0] == "ffi-2threads" and o and o[0] == "two" and len(o) == 3:
         return [(c[1], o[1][1:]), (c[2], o[2][1:])]
@@ -801,7 +812,7 @@ def classify(line, rec):
     Anything else (another result, a `differs`, an ill-formed buffer, a message nobody expects, a missing
     message of another function, a message that survives a clear) is not F8."""
     head = vp.head_of(line)
-    if head not in ("ffi-history", "ffi-2threads"):
+    if head not in ("ffi-history", "ffi-history-nohook", "ffi-2threads"):
         return None
     if rec.get("spec") is not None and rec["spec"] != rec["model"]:
         return None
@@ -867,10 +878,10 @@ def distribution(lines):
             c = vp.parse_sexp(l)
         except Exception:
             continue
-        hs = [c[1:]] if c[0] == "ffi-history" else [c[1], c[2]]
+        hs = [c[1:]] if c[0] in ("ffi-history", "ffi-history-nohook") else [c[1], c[2]]
         for h in hs:
             d["calls"] += len(h)
-            if c[0] == "ffi-history":
+            if c[0] in ("ffi-history", "ffi-history-nohook"):
                 length[len(h)] = length.get(len(h), 0) + 1
             for call in h:
                 n = str(call[0])
